@@ -22,11 +22,11 @@ func init() {
 		ID:    "C14",
 		Level: "exploration",
 		Rule: "E-twin x k: (1) cap(Events) of NewBufferedWatcher(n) == n for n in {0,1,2,4,...,65536} and 0 for NewWatcher; (2) 2-4 measured Watchers with different buffer sizes on the same directories plus 1-4 interfering Watchers doing PRNG Add/Remove/Close/re-create, " +
-			"all fed by one sequential syscall driver; every measured Watcher's stream must equal the translated kernel log (hence each other); (3) a buffered Watcher with no consumer must hold exactly n<=cap distinct events (len(Events)==n) and deliver them intact and in order when drained; and cap+1 IDENTICAL events, each generated only after the previous one was read out of the kernel queue (FIONREAD==0), must all be delivered; (4) a Watcher is closed while its reader is held (verif yield point at the entry of handleEvent, no lock held) between two records of a batch whose next record is the rename of a watched file; a second Watcher created right away gets the same descriptor number and watch descriptors: its kernel marks, WatchList and Write events must be those of its own history; (5) a Watcher with a pending overflow error (Events drained, nobody on Errors) is closed while 24 Watchers are being created on other directories: each of those must keep its descriptor, its kernel mark, accept Add and report a change. " +
+			"all fed by one sequential syscall driver; every measured Watcher's stream must equal the translated kernel log (hence each other); (3) a buffered Watcher with no consumer must hold exactly n<=cap distinct events (len(Events)==n) and deliver them intact and in order when drained; and cap+1 IDENTICAL events, each generated only after the previous one was read out of the kernel queue (FIONREAD==0), must all be delivered; (4) a Watcher is closed while its reader is held (verif yield point at the entry of handleEvent, no lock held) between two records of a batch whose next record is the rename of a watched file; a second Watcher created right away gets the same descriptor number and watch descriptors: its kernel marks, WatchList and Write events must be those of its own history; (5) a Watcher with a pending overflow error (Events drained, nobody on Errors) is closed while 24 Watchers are being created on other directories: each of those must keep its descriptor, its kernel mark, accept Add and report a change; (6) a Watcher subscribed to every operation (including the Linux-only open/read/close ones) on a directory and a file stays silent while other Watchers are created, Add/Remove the same paths and are closed, and then reports exactly the driver's one mkdir. " +
 			"distinct_nontrivial = distinct (history, watcher configuration) runs with >=1 compared event",
 		Assumptions: []string{"kernel shadow = ground truth, one shadow per measured Watcher", "part (3) polls len(Events); if the count is never reached the goroutine dump decides (reader idle in read(2) => events were dropped), a busy reader is inconclusive"},
 		Batches:     func(t string) int { return map[string]int{"quick": 12, "thorough": 48}[t] },
-		MustObserve: []string{"capacities_checked", "measured_watchers", "interfering_watcher_actions", "absorb_cases", "events_received", "fd_reuse_cases", "overflow_neighbour_cases"},
+		MustObserve: []string{"capacities_checked", "measured_watchers", "interfering_watcher_actions", "absorb_cases", "events_received", "fd_reuse_cases", "overflow_neighbour_cases", "quiet_neighbour_cases"},
 		Run:         runC14,
 	})
 }
@@ -62,6 +62,15 @@ func runC14(c *core.Ctx) {
 		}
 		dir, done := caseDir(c, 4000+i)
 		c14FdReuse(c, rng, dir, i)
+		done()
+	}
+	for i := 0; i < c.Pick(6, 40); i++ {
+		rng, ok := c.CaseRng(7000+i, "API calls of other Watchers are not filesystem activity")
+		if !ok {
+			continue
+		}
+		dir, done := caseDir(c, 7000+i)
+		c14QuietNeighbours(c, rng, dir, i)
 		done()
 	}
 	if c.Batch%2 == 1 {
@@ -739,4 +748,85 @@ func c14OverflowNeighbours(c *core.Ctx, rng *rand.Rand, dir string, idx int) {
 	}
 	c.Eval(1)
 	c.Distinct("overflow-neighbours", idx, c.Batch)
+}
+
+// c14QuietNeighbours: the API calls of OTHER Watchers on the same paths are not filesystem activity. Watcher A
+// watches a directory and a file in it with every operation the backend knows (including the Linux-only
+// Open/Read/CloseWrite/CloseRead, through the hook); then other Watchers are created, Add the same directory and
+// file (several spellings), Remove them, are closed - and the driver itself touches nothing. A must deliver
+// nothing at all until the driver's one mkdir, and then exactly that Create.
+func c14QuietNeighbours(c *core.Ctx, rng *rand.Rand, dir string, idx int) {
+	base := filepath.Join(dir, "t")
+	d := filepath.Join(base, "d")
+	f := filepath.Join(d, "f")
+	os.MkdirAll(d, 0o755)
+	os.WriteFile(f, []byte("x"), 0o644)
+	A, err := fsnotify.NewBufferedWatcher(256)
+	if err != nil {
+		c.Broken(err.Error())
+		return
+	}
+	defer A.Close()
+	all := fsnotify.Create | fsnotify.Write | fsnotify.Remove | fsnotify.Rename | fsnotify.Chmod |
+		fsnotify.VerifUnportableOpen | fsnotify.VerifUnportableRead | fsnotify.VerifUnportableCloseWrite | fsnotify.VerifUnportableCloseRead
+	if err := A.AddWith(d, fsnotify.VerifWithOps(all)); err != nil {
+		c.Broken(err.Error())
+		return
+	}
+	if err := A.AddWith(f, fsnotify.VerifWithOps(all)); err != nil {
+		c.Broken(err.Error())
+		return
+	}
+	var log []string
+	for k := 0; k < 4+rng.Intn(6); k++ {
+		B, err := fsnotify.NewBufferedWatcher(uint(rng.Intn(3) * 8))
+		if err != nil {
+			c.Broken(err.Error())
+			return
+		}
+		go func() {
+			for range B.Errors {
+			}
+		}()
+		go func() {
+			for range B.Events {
+			}
+		}()
+		for j := 0; j < 1+rng.Intn(4); j++ {
+			p := []string{d, f, d + "/", base + "/./d", d + "/../d/f"}[rng.Intn(5)]
+			switch rng.Intn(3) {
+			case 0, 1:
+				log = append(log, fmt.Sprintf("B%d.Add(%s)=%v", k, strings.TrimPrefix(p, base), B.Add(p)))
+			default:
+				log = append(log, fmt.Sprintf("B%d.Remove(%s)=%v", k, strings.TrimPrefix(p, base), B.Remove(p)))
+			}
+		}
+		B.WatchList()
+		B.Close()
+		log = append(log, fmt.Sprintf("B%d.Close", k))
+	}
+	sub := filepath.Join(d, "sub")
+	os.Mkdir(sub, 0o755)
+	var got []string
+	deadline := time.After(twin.WatchdogTimeout)
+	for done := false; !done; {
+		select {
+		case e := <-A.Events:
+			got = append(got, e.Op.String()+" "+strings.TrimPrefix(e.Name, base))
+			if e.Name == sub && e.Op&fsnotify.Create != 0 {
+				done = true
+			}
+		case e := <-A.Errors:
+			got = append(got, "ERROR "+e.Error())
+		case <-deadline:
+			c.Inconclusive("quiet neighbours: the Create of the driver's mkdir was not delivered: " + hangClass(core.AllStacks()))
+			return
+		}
+	}
+	c.Count("quiet_neighbour_cases", 1)
+	c.Eval(1)
+	c.Distinct("quiet-neighbours", idx, c.Batch)
+	if len(got) != 1 {
+		c.Violate("events-caused-by-another-watchers-api-calls", fmt.Sprintf("Watcher A (all operations on d and d/f) delivered %q although the only filesystem change was one mkdir; the other Watchers did %v", got, log), log)
+	}
 }
